@@ -119,6 +119,43 @@ impl<'tcx> M<'tcx> {
                     o => unsup(format!("zipped iterator returned {:?}", o)),
                 }
             }
+            V::Obj("zipg", xs) => {
+                if m != "next" {
+                    return unsup("next_back on zip");
+                }
+                let tcx = self.tcx;
+                let (V::Ptr(lp), V::Ptr(rp)) = (xs[0].clone(), xs[1].clone()) else { return unsup("zipg operands") };
+                let (Some(lt), Some(rt)) = (self.alloc_tys.get(&lp.alloc).copied(), self.alloc_tys.get(&rp.alloc).copied()) else { return unsup("zipg operand types") };
+                let Some(itr) = tcx.get_diagnostic_item(rustc_span::sym::Iterator) else { return unsup("Iterator trait not found") };
+                let items = tcx.associated_items(itr);
+                let Some(nx) = items.filter_by_name_unhygienic(rustc_span::Symbol::intern("next")).next().map(|a| a.def_id) else { return unsup("Iterator::next not found") };
+                let Some(item) = items.filter_by_name_unhygienic(rustc_span::Symbol::intern("Item")).next().map(|a| a.def_id) else { return unsup("Iterator::Item not found") };
+                let mut pull = |me: &mut Self, p: Ptr, t: Ty<'tcx>| -> R<V<'tcx>> {
+                    let cur = me.load(&p, t)?;
+                    if matches!(cur, V::SliceIter(..) | V::Obj(..)) {
+                        let mut it = cur;
+                        let r = me.iter_method(&mut it, "next")?;
+                        me.store(&p, t, it)?;
+                        return Ok(r);
+                    }
+                    let rt = Ty::new_mut_ref(tcx, tcx.lifetimes.re_erased, t);
+                    me.call_def(nx, tcx.mk_args(&[t.into()]), vec![(V::Ptr(p), rt)], tcx.types.unit)
+                };
+                let x = pull(self, lp, lt)?;
+                let V::Enum(1, mut a) = x else { return Ok(V::Enum(0, vec![])) };
+                let y = pull(self, rp, rt)?;
+                match y {
+                    V::Enum(1, mut b) => Ok(V::Enum(1, vec![V::Agg(vec![a.remove(0), b.remove(0)])])),
+                    V::Enum(0, _) => {
+                        // the left item has no partner: it is dropped here
+                        let ity = tcx.normalize_erasing_regions(tyenv(), ty::Unnormalized::new_wip(Ty::new_projection(tcx, item, tcx.mk_args(&[lt.into()]))));
+                        let al = self.new_alloc(a.remove(0), "unpaired-zip-item");
+                        self.drop_at(&Ptr { alloc: al, path: vec![], off: 0, sl: None }, ity)?;
+                        Ok(V::Enum(0, vec![]))
+                    }
+                    o => unsup(format!("zipped iterator returned {:?}", o)),
+                }
+            }
             o => unsup(format!("iterator method {} on {:?}", m, o)),
         }
     }
@@ -406,7 +443,7 @@ impl<'tcx> M<'tcx> {
             }
             return Ok(Some(acc));
         }
-        if n.ends_with("::for_each") && vals.len() == 2 && matches!(vals[0].0, V::SliceIter(..) | V::Obj("zip", _) | V::Obj("zipx", _)) {
+        if n.ends_with("::for_each") && vals.len() == 2 && matches!(vals[0].0, V::SliceIter(..) | V::Obj("zip", _) | V::Obj("zipx", _) | V::Obj("zipg", _)) {
             let mut it = vals[0].0.clone();
             let (fv, fty) = vals[1].clone();
             loop {
@@ -422,7 +459,7 @@ impl<'tcx> M<'tcx> {
             if let (V::Ptr(p), ty::Ref(_, inner, _)) = (vals[0].0.clone(), vals[0].1.kind()) {
                 let inner = *inner;
                 if let Ok(mut it) = self.load(&p, inner) {
-                    if matches!(it, V::SliceIter(..) | V::Obj("zip", _) | V::Obj("zipx", _)) {
+                    if matches!(it, V::SliceIter(..) | V::Obj("zip", _) | V::Obj("zipx", _) | V::Obj("zipg", _)) {
                         let is_pos = n.ends_with("position");
                         let (fv, fty) = vals[1].clone();
                         let mut idx = 0i128;
@@ -462,7 +499,7 @@ impl<'tcx> M<'tcx> {
                 (v, _) => (Some(v.clone()), None),
             };
             if let Some(mut it) = itv {
-                if matches!(it, V::SliceIter(..) | V::Obj("zip", _) | V::Obj("zipx", _)) {
+                if matches!(it, V::SliceIter(..) | V::Obj("zip", _) | V::Obj("zipx", _) | V::Obj("zipg", _)) {
                     let is_all = n.ends_with("::all");
                     let (fv, fty) = vals[1].clone();
                     let item_ty = cargs.types().next().and_then(|t| match peel_refs(t).kind() {
@@ -529,7 +566,29 @@ impl<'tcx> M<'tcx> {
                     }
                 }
             }
-            return unsup(format!("zip of unmodelled iterators {:?} / {:?}", a, b));
+            // general case: both operands are kept as they are (the right one converted with its own into_iter), parked in allocations;
+            // `next` follows std's default Zip: left first, then right; a left item without a partner is dropped
+            {
+                let lt = vals[0].1;
+                let ut = vals[1].1;
+                if let Some(iit) = tcx.get_diagnostic_item(rustc_span::sym::IntoIterator) {
+                    let items = tcx.associated_items(iit);
+                    let into = items.filter_by_name_unhygienic(rustc_span::Symbol::intern("into_iter")).next().map(|x| x.def_id);
+                    let assoc = items.filter_by_name_unhygienic(rustc_span::Symbol::intern("IntoIter")).next().map(|x| x.def_id);
+                    if let (Some(into), Some(assoc)) = (into, assoc) {
+                        let args = tcx.mk_args(&[ut.into()]);
+                        let it_ty = tcx.normalize_erasing_regions(tyenv(), ty::Unnormalized::new_wip(Ty::new_projection(tcx, assoc, args)));
+                        let itv = if matches!(b, V::SliceIter(..) | V::Obj(..)) { b } else { self.call_def(into, args, vec![(b, ut)], it_ty)? };
+                        let al = self.new_alloc(a, "zipped-iterator-left");
+                        self.alloc_tys.insert(al, lt);
+                        let ar = self.new_alloc(itv, "zipped-iterator-right");
+                        self.alloc_tys.insert(ar, it_ty);
+                        let mk = |x: usize| V::Ptr(Ptr { alloc: x, path: vec![], off: 0, sl: None });
+                        return Ok(Some(V::Obj("zipg", vec![mk(al), mk(ar)])));
+                    }
+                }
+            }
+            return unsup("zip: IntoIterator not found");
         }
         // by-value iterator adaptors on the slice iterator: fall back to the generic default bodies
         // Range<usize> iteration
